@@ -521,16 +521,25 @@ fn run_entry(i: usize, sc: &Scenario, maps: &Maps, out: &mut Vec<Value>, checks:
 /// n50 = tiny droplets), in any of several orders and when a later call overwrites an earlier one.
 fn generic_vs_mode_builders(maps: &Maps, out: &mut Vec<Value>, checks: &mut u64) {
     use rosu_pp::any::HitResultPriority::{BestCase, WorstCase};
-    for (mode, (map, _)) in maps.by_mode.iter() {
+    // the small concretised map of each mode and, where the fixture is there, a window of 60 real objects
+    let mut all: Vec<(String, Beatmap)> = maps.by_mode.iter().map(|(m, (b, _))| (m.clone(), b.clone())).collect();
+    for (mode, id) in [("osu", "2785319"), ("taiko", "1028484"), ("catch", "2118524"), ("mania", "1638954")] {
+        if let Ok(mut m) = Beatmap::from_path(format!("/repo/resources/{id}.osu")) {
+            m.hit_objects.truncate(60);
+            m.hit_sounds.truncate(60);
+            all.push((mode.to_string(), m));
+        }
+    }
+    for (mode, map) in all.iter() {
         for variant in 0..8usize {
             for lazer in [true, false] {
                 *checks += 1;
                 let g = Performance::new(map).lazer(lazer);
                 let (generic, own): (Performance<'_>, Performance<'_>) = match (mode.as_str(), variant) {
                     // priority alone (consulted without an accuracy), also as an overwrite of an earlier value
-                    ("osu", 0) => (g.hitresult_priority(BestCase).misses(2).hitresult_priority(WorstCase), Performance::Osu(rosu_pp::osu::OsuPerformance::new(map).lazer(lazer).misses(2).hitresult_priority(WorstCase))),
-                    ("taiko", 0) => (g.hitresult_priority(BestCase).misses(2).hitresult_priority(WorstCase), Performance::Taiko(rosu_pp::taiko::TaikoPerformance::new(map).misses(2).hitresult_priority(WorstCase))),
-                    ("mania", 0) => (g.hitresult_priority(BestCase).misses(2).hitresult_priority(WorstCase), Performance::Mania(rosu_pp::mania::ManiaPerformance::new(map).lazer(lazer).misses(2).hitresult_priority(WorstCase))),
+                    ("osu", 0) => (g.hitresult_priority(BestCase).misses(1).hitresult_priority(WorstCase), Performance::Osu(rosu_pp::osu::OsuPerformance::new(map).lazer(lazer).misses(1).hitresult_priority(WorstCase))),
+                    ("taiko", 0) => (g.hitresult_priority(BestCase).misses(1).hitresult_priority(WorstCase), Performance::Taiko(rosu_pp::taiko::TaikoPerformance::new(map).misses(1).hitresult_priority(WorstCase))),
+                    ("mania", 0) => (g.hitresult_priority(BestCase).misses(1).hitresult_priority(WorstCase), Performance::Mania(rosu_pp::mania::ManiaPerformance::new(map).lazer(lazer).misses(1).hitresult_priority(WorstCase))),
                     ("catch", 0) => (g.hitresult_priority(WorstCase).misses(1), Performance::Catch(rosu_pp::catch::CatchPerformance::new(map).misses(1))),
                     // accuracy + priority + one result
                     ("osu", 1) => (g.accuracy(91.5).n50(1).hitresult_priority(WorstCase), Performance::Osu(rosu_pp::osu::OsuPerformance::new(map).lazer(lazer).accuracy(91.5).n50(1).hitresult_priority(WorstCase))),
